@@ -172,7 +172,10 @@ func genRoot(g *yg.G) *A {
 	if g.Pick(4, "rootkind") == 0 {
 		return genExt(g, 4)
 	}
-	m := &A{Kw: "module", Val: sp("m"), Kids: []*A{{Kw: "namespace", Val: sp("urn:m")}, {Kw: "prefix", Val: sp("m")}}}
+	// (the argument of namespace is reported as written, whatever a URI library would make of it: upper-case scheme,
+	// empty fragment, characters that a canonical form would escape)
+	ns := []string{"urn:m", "urn:m", "URN:M:x", "http://example.com/ns#", "HTTP://Example.COM/Ns", "http://example.com/\u00e4/b", "http://example.com/a b", "urn:x:y?=a#"}[g.Pick(8, "nsform")]
+	m := &A{Kw: "module", Val: sp("m"), Kids: []*A{{Kw: "namespace", Val: sp(ns)}, {Kw: "prefix", Val: sp("m")}}}
 	for _, kw := range []string{"organization", "contact", "description", "reference"} {
 		if g.Pick(2, kw) == 0 {
 			m.Kids = append(m.Kids, &A{Kw: kw, Val: sp(genValue(g))})
